@@ -1,4 +1,65 @@
+/-
+  C15 — Filter changes only ids; CheckIds only rejects foreign ids.
+  Property theorems about CM.Model.Rel (tied to /repo by the S-REL correspondence).
+-/
 import CM.Model.Rel
 namespace CM.C15
-theorem placeholder : True := trivial
+open CM
+
+/-- Filter changes nothing but `ids`: the fields and the value of every field on every id (also ids that were
+filtered out) are those of the unfiltered dataset. -/
+theorem filter_other_fields_untouched (pred : String → Except Err Bool) (d : DS) :
+    (filterDS pred d).fields = d.fields ∧ (filterDS pred d).value = d.value := ⟨rfl, rfl⟩
+
+theorem filterM_spec (pred : String → Except Err Bool) (b : String → Bool) :
+    ∀ ids : List String, (∀ i ∈ ids, pred i = .ok (b i)) → filterM pred ids = .ok (ids.filter b)
+  | [], _ => rfl
+  | x :: xs, h => by
+    have hx := h x (List.mem_cons_self ..)
+    have ih := filterM_spec pred b xs (fun i hi => h i (List.mem_cons_of_mem _ hi))
+    simp only [filterM, hx, ih, bind, Except.bind, pure, Except.pure, List.filter_cons]
+
+/-- The new ids are exactly the old ids whose entry satisfies the predicate, in the original order. -/
+theorem filter_ids (pred : String → Except Err Bool) (b : String → Bool) (d : DS) (ids : List String)
+    (hids : d.ids = .ok ids) (hp : ∀ i ∈ ids, pred i = .ok (b i)) :
+    (filterDS pred d).ids = .ok (ids.filter b) := by
+  simp only [filterDS, hids, Except.bind]
+  exact filterM_spec pred b ids hp
+
+/-- `keep` / `drop` are the membership special cases -/
+theorem keep_ids (keep : List String) (d : DS) (ids : List String) (hids : d.ids = .ok ids) :
+    (filterDS (fun i => .ok (keep.contains i)) d).ids = .ok (ids.filter keep.contains) :=
+  filter_ids _ _ d ids hids (fun _ _ => rfl)
+
+/-- Stacked filters compose to the conjunction of their predicates. -/
+theorem stacked_filters (p q : String → Except Err Bool) (bp bq : String → Bool) (d : DS) (ids : List String)
+    (hids : d.ids = .ok ids) (hp : ∀ i ∈ ids, p i = .ok (bp i)) (hq : ∀ i ∈ ids, q i = .ok (bq i)) :
+    (filterDS q (filterDS p d)).ids = .ok (ids.filter fun i => bp i && bq i) := by
+  have h1 := filter_ids p bp d ids hids hp
+  have h2 := filter_ids q bq (filterDS p d) (ids.filter bp) h1
+    (fun i hi => hq i (List.mem_filter.mp hi).1)
+  rw [h2, List.filter_filter]
+  congr 1
+  apply List.filter_congr
+  intro x _
+  exact Bool.and_comm ..
+
+/-- CheckIds: every field raises `KeyError` for an id outside the current ids ... -/
+theorem checkids_rejects (d : DS) (ids : List String) (hids : d.ids = .ok ids) (f i : String)
+    (hi : ids.contains i = false) : (checkIdsDS d).value f i = .error .keyError := by
+  simp only [checkIdsDS, hids, hi]
+  rfl
+
+/-- ... and is otherwise transparent. -/
+theorem checkids_transparent (d : DS) (ids : List String) (hids : d.ids = .ok ids) (f i : String)
+    (hi : ids.contains i = true) : (checkIdsDS d).value f i = d.value f i ∧ (checkIdsDS d).ids = d.ids := by
+  simp only [checkIdsDS, hids, hi]
+  simp
+
+/-- non-vacuity -/
+example :
+    let d : DS := { fields := ["id", "x"], ids := .ok ["b", "a", "c"], value := fun _ i => .ok (.str i) }
+    (match (filterDS (fun i => .ok (i != "a")) d).ids with | .ok xs => xs == ["b", "c"] | .error _ => false) = true := by
+  decide
+
 end CM.C15
